@@ -27,6 +27,7 @@ class Builder:
         self._bundles = {}
         self._modules = {}
         self._tagparams = None
+        self._ibts = {}
         self.ncs = {}
         self.inst_objs = {}  # (midx, iname) -> instance object
         self.mutate = mutate  # optional hook(builder, midx, phase, ctx)
@@ -214,7 +215,17 @@ class Builder:
                 else:
                     io = h.InstanceArray(of=tgt, n=inst["n"])
             elif kind == "pair":
-                io = h.Pair(tgt)
+                if inst.get("members"):
+                    # an InstanceBundleType of the design's own, over a flat bundle with these members
+                    key = tuple(inst["members"])
+                    if key not in self._ibts:
+                        IB = h.Bundle(name="IB_" + "_".join(key))
+                        for mn in key:
+                            IB.add(h.Signal(name=mn))
+                        self._ibts[key] = h.InstanceBundleType(name="Group_" + "_".join(key), bundle=IB)
+                    io = self._ibts[key](tgt)
+                else:
+                    io = h.Pair(tgt)
             else:
                 raise ValueError(kind)
             insts[inst["name"]] = io
